@@ -309,7 +309,7 @@ func intSub(a, b Int) Object {
 		// a < IntMax + b
 		// IntMax + b can't overflow since
 		// IntMax=7FFF, b = -8000..-1, IntMax + b = -1..0x7FFE
-		if a < IntMax+b {
+		if a > IntMax+b {
 			goto overflow
 		}
 	}
